@@ -74,13 +74,15 @@ ENTRY h_attr_identity() {
   any_list(l1, nullptr); any_list(l2, nullptr);
 #endif
   Filter f;
-#ifdef ALLOW
+#if defined(ALLOW_SYM)
+  bool use_filter = true;
+#elif defined(ALLOW)
   static const bool AL[] = {ALLOW}; bool use_filter = USE_FILTER;
 #else
   bool use_filter = nondet_bool();
 #endif
   bool allow_all[NK] = {true, true, true};
-  #ifdef ALLOW
+  #if defined(ALLOW) && !defined(ALLOW_SYM)
   for (int k = 0; k < NK; k++) f.allow[k] = AL[k];
 #else
   for (int k = 0; k < NK; k++) { bool a = nondet_bool(); f.allow[k] = a; }
@@ -94,3 +96,4 @@ ENTRY h_attr_identity() {
   VASSERT(!eq || a.GetHash() == b.GetHash(), "equal attribute sets hash equally");
   VASSERT(!eq || m::AttributeHashGenerator()(a) == m::AttributeHashGenerator()(b), "equal attribute sets hash equally (AttributeHashGenerator)");
 }
+
